@@ -300,7 +300,7 @@ def C11(tier, seed):
                    st("prop", ["C11.no_panic", "C11.is_significant", "C11.is_significant_k_gt_n", "C11.documented_panic", "C11.stats_new", "C11.prop"]),
                    st("quant", ["C11.no_panic", "C11.quant_ranks", "C11.quant_data", "C11.documented_panic_quantile", "C11.unsorted_input_to_sorted_unchecked"])]
                   # valid input of very large size must not panic either (overflow checks are on)
-                  + bigpop_stages(['C02.domain', 'C02.in01', 'C02.no_panic', 'C02.shape'], ['C03.domain', 'C03.in_range', 'C03.kind', 'C03.no_panic']),
+                  + [edge_stage(tier, ["C02.domain", "C02.no_panic"])] + bigpop_stages(['C02.domain', 'C02.in01', 'C02.no_panic', 'C02.shape'], ['C03.domain', 'C03.in_range', 'C03.kind', 'C03.no_panic']),
         "exhaustive": True,
         "rule": "decision table of module Totality: five mean/comparison producers x call styles x samples of length 0..4 (6 thorough) with one "
                 "offending observation (NaN, +-inf, -0, 0, negative, 1e200, 1e-200) at every position, constant and non exactly summable "
@@ -329,6 +329,16 @@ NUM_TRUST = TLC_TRUST + ["the mpmath-generated quantile tables (spec/tables; axi
                          "the BigInteger accelerators of the exact kernel (checked against the TLA+ definitions by MC_BigNum)"]
 
 
+def edge_stage(tier, adopt):
+    """the edge of the documented domain of the proportion intervals for every population up to 2000 (20 000)"""
+    st = Stage("edge", ("Gen_Proportion", "Gen_Proportion.cfg"), ("Trace_Proportion", "Trace_Proportion.cfg"),
+               env={"GRP": "edge", "PROP_N": 0, "PROP_LEVELS": "sel", "PROP_BIG": 0, "PROP_EDGE": 2000 if tier == "quick" else 20000}, shards=8,
+               required=["C02.domain.ok.wilson", "C02.domain.TooFewSuccesses.wilson", "C02.domain.TooFewFailures.wilson",
+                         "C02.domain.ok.wald", "C02.domain.TooFewSuccesses.wald", "C02.domain.TooFewFailures.wald", "C02.front_end.ci"])
+    st.adopt = set(adopt)
+    return st
+
+
 def bigpop_stages(adopt_prop, adopt_quant):
     """populations beyond 2^32 through the count-based proportion entry points and the index-only quantile entry points"""
     bp = Stage("bigpop", ("Gen_Proportion", "Gen_Proportion.cfg"), ("Trace_Proportion", "Trace_Proportion.cfg"),
@@ -348,7 +358,7 @@ def C02(tier, seed):
     st.mc = list(TABLES_MC)
     own = own_stage("W", "Trace_Proportion", ["C02.root_lo", "C02.root_hi", "C02.domain"])
     return {
-        "stages": [st, own, history_stage()],
+        "stages": [st, own, history_stage(), edge_stage(tier, [])],
         "exhaustive": True,
         "rule": "every ci_wilson / ci_z_normal call made by the repository's OWN test-suite (about 18 000 calls of the Monte-Carlo accuracy test, "
                 "recorded by the guarded hook) through the same root-enclosure judge; "
@@ -369,7 +379,9 @@ def C17(tier, seed):
     return {
         "stages": [row,
                    prop_stage("mult", n, ["C17.shrinks_with_n"]),
-                   prop_stage("levels", n, ["C17.wider_with_level"]), history_stage()] + bigpop_stages(['C02.domain', 'C02.front_end', 'C02.in01', 'C02.no_panic', 'C02.root_hi', 'C02.root_lo', 'C02.shape'], [])[:1],
+                   prop_stage("levels", n, ["C17.wider_with_level"]), history_stage(),
+                   # the admissible domain is mirror-symmetric (k successes <-> k failures) for every population
+                   edge_stage(tier, ["C02.domain", "C02.no_panic", "C02.front_end", "C02.root_lo", "C02.root_hi"])] + bigpop_stages(['C02.domain', 'C02.front_end', 'C02.in01', 'C02.no_panic', 'C02.root_hi', 'C02.root_lo', 'C02.shape'], [])[:1],
         "exhaustive": True,
         "rule": "relations over the recorded table (n, k) -> interval: for every n <= 40 (130) and confidence, consecutive k (monotone), "
                 "k vs n-k within two-sided rows and between upper and lower rows (mirror, 2^-50), midpoint between k/n and 1/2; "
